@@ -639,7 +639,7 @@ class DictRefS(RefS):
         return 3
 
 
-def _maint_env(E, st):
+def _maint_env(E, st, two_new=False):
     import unittest.mock as mock
     D = DictionaryDataBase()
     M = LDMMaintenanceThread.__new__(LDMMaintenanceThread)
@@ -660,8 +660,12 @@ def _maint_env(E, st):
     ha, hb = z3.Bool("a_present"), z3.Bool("b_present")
     E.assumptions += [ka >= 0, ka < kb, kb < n0, n0 <= 1000]
     keys = [ka, kb, n0]
+    if two_new:
+        # variant for two concurrent adds: one earlier record, the two new identifiers tracked
+        keys = [ka, n0 + 1, n0]
+        E.assumptions.append(z3.Not(hb))
     shape = DictRefS(recs, leaves)
-    Do.fields["database"] = SDict([(ha, ka, recs[0], False), (hb, kb, recs[1], False)])
+    Do.fields["database"] = SDict([(ha, ka, recs[0], False)] + ([] if two_new else [(hb, kb, recs[1], False)]))
     Do.fields["_next_id"] = n0
     flag0 = z3.Int("new_data_flag")
     E.assumptions += [flag0 >= 0, flag0 <= 1]
@@ -1059,3 +1063,144 @@ def _register_full_vcs():
 
 
 _register_full_vcs()
+
+
+# ---------------------------------------------------------------------------------------------- Y5 reactive maintenance: the pass runs inside add_provider_data
+import time as _time
+
+
+def _reactive_env(E, st):
+    """LDMMaintenanceReactive over the in-memory back-end: add_provider_data inserts and, when a second has passed, runs the pass itself"""
+    M0, Mo0 = _maint_env(E, st, two_new=True)          # store, records, clock stubs (the threaded object itself is replaced below)
+    D = st["D"]
+    M = LDMMaintenanceReactive.__new__(LDMMaintenanceReactive)
+    LDMMaintenance.__init__(M, None, D)
+    M.lock = threading.Lock()
+    M.last_trash_collection_time = 0.0
+    Mo = E.lift(M)
+    Mo.fields["data_containers"] = st["Do"]
+    from ..facil import logger
+    Mo.fields["logging"] = logger(E)
+    Mo.fields["new_data_recieved_flag"] = st["vars"]["new_data_flag"]
+    last = z3.Real("last_pass_monotonic")
+    mono = z3.Real("monotonic_now")
+    E.assumptions += [last >= 0, mono >= last, mono <= last + 10]
+    Mo.fields["last_trash_collection_time"] = last
+    E.stubs[_time.monotonic] = lambda it, a, k, pc: mono
+    # replace the shared declarations of the threaded object by those of the reactive one
+    for key in [k for k in E.shared if E.shared[k][0] is Mo0]:
+        del E.shared[key]
+        E.order.remove(key)
+    E.share(Mo, "new_data_recieved_flag", IntS(), None)
+    E.share(Mo, "last_trash_collection_time", IntS(), "lock")
+    st.update(M=M, Mo=Mo, last=last, mono=mono)
+    st["vars"] = dict(st["vars"], last_pass_monotonic=last, monotonic_now=mono)
+    st["inputs"] = list(st["inputs"]) + [last, mono]
+    return M, Mo
+
+
+class _RealReactive(_RealMaint):
+    def __init__(self, vals):
+        super().__init__(vals)
+        M = LDMMaintenanceReactive.__new__(LDMMaintenanceReactive)
+        LDMMaintenance.__init__(M, None, self.D)
+        M.lock = threading.Lock()
+        M.last_trash_collection_time = _frac(vals["last_pass_monotonic"])
+        M.check_and_delete_area_of_maintenance = lambda: []
+        M.new_data_recieved_flag = vals["new_data_flag"]
+        self.M = M
+
+
+def _frac(v):
+    if isinstance(v, str):
+        from fractions import Fraction
+        return float(Fraction(v.rstrip("?")))
+    return float(v)
+
+
+@vc("C16", "Y5-reactive-maintenance-concurrent-adds")
+def reactive_adds(ctx):
+    """two providers add through the reactive maintenance at the same time; each add may run the garbage-collection pass itself"""
+    st = {}
+    combo = ("add1", "add2")
+
+    def build(E):
+        st.clear()
+        M, Mo = _reactive_env(E, st)
+        # two different added records: Rn and Ru of the universe
+        calls = {"n": 0}
+        which = {"add1": st["recs"][2], "add2": st["recs"][3]}
+        E.stubs[LC.AddDataProviderReq.to_dict] = lambda it, a, k, pc: which[it.cur_thread]
+        # the pass itself (two passes interleaving with each other and with adds) is Y3 [gc|gc'], [gc|gc'|add]; here it is one recorded step
+        st["passes"] = []
+        E.stubs[LDMMaintenance.collect_trash] = lambda it, a, k, pc: st["passes"].append((pc, it.cur_thread))
+        return dict(threads=[(nm, LDMMaintenanceReactive.add_provider_data, [Mo, Obj(LC.AddDataProviderReq, dict(data_object=nm))]) for nm in combo],
+                    locks=[M.lock, st["D"]._lock], lock_names=["lock", "_lock"])
+    il = Ilv(build, unroll=4).run()
+    il.cons = il.encode()
+    E = il.E
+    ids = [E.tok(il.rets[nm][0]) for nm in combo]
+    fdb = il.final(st["Do"], "database")
+    exc = z3.Or(*[c for nm in combo for c, k in il.rets[nm][1]]) if any(il.rets[nm][1] for nm in combo) else FALSE
+    vars_ = st["vars"]
+    keys = st["keys"]          # [ka, kb, n0] - the second new identifier n0+1 is not a tracked key: ask for it through the allocator
+    nxt = il.final(st["Do"], "_next_id")[0]
+
+    def replay(vals):
+        from unittest import mock
+        R = _RealReactive(vals)
+        sched = Scheduler(vals["schedule"])
+        gate_object(R.D, {"database": "_lock", "_next_id": "_lock"}, sched, il.und_names)
+        gate_object(R.M, {"new_data_recieved_flag": None, "last_trash_collection_time": "lock"}, sched, il.und_names)
+        recs = {"add1": _real_rec(vals, "Rn"), "add2": _real_rec(vals, "Ru")}
+        mk = lambda nm: type("Req", (), {"to_dict": lambda self: recs[nm], "data_object": nm})()
+        import flexstack.facilities.local_dynamic_map.ldm_maintenance_reactive as RMOD
+        ran = []
+        R.M.collect_trash = lambda: ran.append(threading.current_thread().name)
+        with mock.patch.object(TimeService, "time", staticmethod(lambda: _now_float(vals))), \
+                mock.patch.object(RMOD.time, "monotonic", lambda: _frac(vals["monotonic_now"])):
+            res, sched = run_schedule(vals["schedule"], {nm: (lambda nm=nm: R.M.add_provider_data(mk(nm))) for nm in combo}, sched)
+        if sched.failed:
+            return False, "replay scheduler: " + sched.failed
+        bad = [f"{n} raised {r[1]!r}" for n, r in res.items() if r[0] == "raised"]
+        got = [res[nm][1] for nm in combo]
+        db = object.__getattribute__(R.D, "database")
+        now_its = (int(_now_float(vals)) - ITS_EPOCH + ELAPSED_SECONDS) * 1000
+        due = _frac(vals["monotonic_now"]) - _frac(vals["last_pass_monotonic"]) >= 1
+        if (due and not ran) or (not due and ran):
+            bad.append(f"garbage collection ran in {ran} although a second had {'passed' if due else 'not passed'} since the last pass")
+        if got[0] == got[1]:
+            bad.append(f"both providers got identifier {got[0]}")
+        for nm, i in zip(combo, got):
+            r = recs[nm]
+            lapsed = r["timeValidity"] * 1000 + r["timestamp"] < now_its
+            if not lapsed and db.get(i) != r:
+                bad.append(f"the object of {nm} (still valid) is not stored under its identifier {i}")
+        if vals["a_present"]:
+            ra = _real_rec(vals, "Ra")
+            if not (ra["timeValidity"] * 1000 + ra["timestamp"] < now_its) and db.get(vals["id_a"]) != ra:
+                bad.append("an earlier, still valid object was removed or changed")
+        return bool(bad), f"two concurrent reactive adds from {vals}: " + ("; ".join(bad) or "ok") + f" (ids {got}, store {db}, switch points {sched.trace})"
+    feasible(ctx, il, "Y5-some-schedule")
+    feasible(ctx, il, "Y5-both-adds-run-the-pass", z3.And(*[z3.Or(*[c for c, t in st["passes"] if t == nm]) if any(t == nm for c, t in st["passes"]) else FALSE for nm in combo]))
+    npass = sum([z3.If(c, 1, 0) for c, t in st["passes"]]) if st["passes"] else z3.IntVal(0)
+    due_ = st["mono"] - st["last"] >= 1
+    solve(ctx, il, "Y5-a-pass-runs-when-a-second-has-elapsed-and-none-otherwise", z3.Or(z3.And(due_, npass < 1), z3.And(z3.Not(due_), npass != 0)), vars=vars_, replay=replay,
+          desc="when at least one second has passed since the recorded last pass, at least one of the two adds runs the pass (the second may find the time already "
+               "updated by the first); otherwise none does")
+    solve(ctx, il, "Y5-no-exception", exc, vars=vars_, replay=replay)
+    solve(ctx, il, "Y5-identifiers-distinct-and-new", z3.Or(ids[0] == ids[1], *[z3.Or(i < st["n0"], i > st["n0"] + 1) for i in ids]), vars=vars_, replay=replay)
+    solve(ctx, il, "Y5-allocator-advanced-by-two", nxt != st["n0"] + 2, vars=vars_, replay=replay)
+    # the object stored under n0 (tracked key) is the one whose add got n0, unless it had lapsed and a pass removed it
+    for j, (nm, r) in enumerate((("add1", 2), ("add2", 3))):
+        for o, idt in ((2 * 4, st["n0"]), (1 * 4, st["n0"] + 1)):
+            stored = z3.And(fdb[o], *[fdb[o + 1 + x] == st["leaves"][r][x] for x in range(3)])
+            solve(ctx, il, f"Y5-valid-object-of-{nm}-stored-under-its-identifier", z3.And(ids[j] == idt, z3.Not(st["expired"][r]), z3.Not(stored)), vars=vars_, replay=replay)
+    solve(ctx, il, "Y5-earlier-valid-object-survives", z3.And(st["ha"], z3.Not(st["expired"][0]), z3.Not(z3.And(fdb[0], *[fdb[1 + x] == st["leaves"][0][x] for x in range(3)]))),
+          vars=vars_, replay=replay)
+    no_deadlock(ctx, il, "Y5")
+    bounds_ok(ctx, il, "Y5")
+    note_blocks(ctx, il, "add_provider_data || add_provider_data on LDMMaintenanceReactive (each may run collect_trash inline)")
+    ctx.bound("store of two records (each present or not) + the two added ones; one clock instant; time.monotonic one symbolic value up to 10 s after the last pass "
+              "(both adds then decide alike whether to run the pass)")
+    ctx.stub("as Y3; time.monotonic is one symbolic instant; collect_trash is a recorded step here (passes interleaving with each other and with adds: Y3)")
